@@ -86,6 +86,11 @@ Definition result_ok (tr : list event) (r : result) : Prop :=
   end.
 
 (* ---- budgets ------------------------------------------------------------------------------------ *)
+(* the times the policy answered "retry" / "retry on the next host" during one execution *)
+Definition is_retry_answer (e : event) : bool :=
+  match e with EvType _ t => (t =? DocRetry) || (t =? DocRetryNextHost) | _ => false end.
+Definition retry_answers (tr : list event) : nat := length (filter is_retry_answer tr).
+
 (* A policy "with threshold n" stops answering yes once the query has been attempted more than n times
    (SimpleRetryPolicy: "Attempt tells gocql to attempt the query again based on query.Attempts being less
    than the NumRetries"; the exponential and downgrading policies count the same way). *)
